@@ -18,7 +18,7 @@ type c03 struct{}
 func (c03) ID() string    { return "C03" }
 func (c03) Level() string { return "exploration" }
 func (c03) Rule() string {
-	return "cases = (constraint set, cost function, entry point): CNF from T2 (<=2 clauses), S3 (<=2 clauses, 3 thorough) and S4 pairs, cardinality/PB sets (singles, card pairs, PB pairs over 3 variables, decreasing-coefficient family) x every cost function over a non-empty set of distinct variables, either polarity, weights nil (all 1) or every vector over {0,1,2} (quick) / {0..3} (thorough), negative weights through the OPB front end ([-2..2]), and no cost function at all x {Optimal(nil), Optimal(channel), Minimize} x heuristic choice list (<=1 deviation across all the Solve calls of the optimisation loop). Oracle: truth-table minimum: Unsat iff no model; model satisfies all constraints; reported cost == cost(model) == minimum; stream of results has strictly decreasing true costs. Non-trivial = the optimisation loop made at least one improving step (two or more results) or proved Unsat after search."
+	return "cases = (constraint set, cost function, entry point): CNF from T2 (<=2 clauses), S3 (<=2 clauses, 3 thorough) and S4 pairs, cardinality/PB sets (singles, card pairs, PB pairs over 3 variables, decreasing-coefficient family) x every cost function over a non-empty set of distinct variables, either polarity, weights nil (all 1) or every vector over {0,1,2} (quick) / {0..3} (thorough), negative weights through the OPB front end ([-2..2]), and no cost function at all; plus OC, a seeded catalogue of covering-like CNFs over 8..12 variables with a cost function over all variables with distinct weights and all one-edit neighbours (3..8 successive improvements per run) x {Optimal(nil), Optimal(channel), Minimize} x heuristic choice list (<=1 deviation across all the Solve calls of the optimisation loop). Oracle: truth-table minimum: Unsat iff no model; model satisfies all constraints; reported cost == cost(model) == minimum; stream of results has strictly decreasing true costs. Non-trivial = the optimisation loop made at least one improving step (two or more results) or proved Unsat after search."
 }
 func (c03) Assumptions() []string {
 	return []string{"truth-table reference is correct", "Minimize's -1 is read as Unsat only when -1 is not the true optimum (the integer-returning entry point cannot distinguish them)", "weights outside [-2..3] are not covered"}
@@ -116,6 +116,68 @@ func (c03) Enumerate(tier string, seed int64, yield func(string, core.Case) bool
 		return true
 	}) {
 		return
+	}
+	// OC: seeded catalogue of covering-like CNFs over 8..12 variables (clauses of 2..4 mostly positive
+	// literals) with a cost function over ALL variables with distinct weights, and all their one-edit
+	// neighbours: optimisation then takes 3..8 successive improvements, cost literals get fixed at top
+	// level between improvements (by the bound or by learned units), and bound constraints coexist
+	{
+		nseeds := 90
+		if thorough {
+			nseeds = 1500
+		}
+		g := &lcg{s: uint64(seed)*48271 + 11}
+		for sd := 0; sd < nseeds; sd++ {
+			n := 8 + int(g.next()%5)
+			m := n + int(g.next()%uint64(n))
+			var f [][]int
+			for i := 0; i < m; i++ {
+				k := 2 + int(g.next()%3)
+				used := map[int]bool{}
+				var cl []int
+				for len(cl) < k {
+					v := 1 + int(g.next()%uint64(n))
+					if used[v] {
+						continue
+					}
+					used[v] = true
+					if g.next()%5 == 0 {
+						v = -v
+					}
+					cl = append(cl, v)
+				}
+				f = append(f, cl)
+			}
+			// weights: a seeded permutation of 1..n
+			w := make([]int, n)
+			l := make([]int, n)
+			for i := range w {
+				w[i], l[i] = i+1, i+1
+			}
+			for i := n - 1; i > 0; i-- {
+				j := int(g.next() % uint64(i+1))
+				w[i], w[j] = w[j], w[i]
+			}
+			cost := [][2][]int{{l, w}}
+			variants := [][][]int{f}
+			for i := range f {
+				variants = append(variants, append(copyCNF(f[:i]), copyCNF(f[i+1:])...))
+				for j := range f[i] {
+					h := copyCNF(f)
+					h[i][j] = -h[i][j]
+					variants = append(variants, h)
+				}
+			}
+			for vi, h := range variants {
+				mode := c03Modes[:1]
+				if vi%2 == 1 {
+					mode = c03Modes[2:]
+				}
+				if !emit("OC", cnfProb("slicenb", h, n, n), cost, 1, mode) {
+					return
+				}
+			}
+		}
 	}
 	// OPB front end with coefficients of either sign in the cost function
 	cfneg := costFunctions(3, 3, -2, 2, false)
